@@ -14,14 +14,19 @@
 package main
 
 import (
+	"bytes"
+	"crypto/sha256"
+	"encoding/binary"
 	"encoding/json"
 	"flag"
 	"fmt"
 	"go/ast"
 	"go/parser"
+	"go/printer"
 	"go/token"
 	"os"
 	"path/filepath"
+	"regexp"
 	"sort"
 	"strconv"
 	"strings"
@@ -1341,6 +1346,90 @@ func sharedAccess() string {
 	return sb.String()
 }
 
+// sourcePins: one Nat per top-level declaration of the library (comments and layout do not count): the first 60 bits
+// of the SHA-256 of the declaration printed by go/printer from a parse without comments.  The hand-written models
+// record, per property, the values of the declarations they were transcribed from (GN/Props/Pins/Cxx.lean).
+func sourcePins() string {
+	dirs := []string{"buffer", "console", "errors", "eventloop", "goutil", "process", "require", "url", "util"}
+	type pin struct {
+		key string
+		val uint64
+	}
+	var pins []pin
+	seen := map[string]int{}
+	add := func(key string, node interface{}) {
+		var buf bytes.Buffer
+		if err := (&printer.Config{Mode: printer.RawFormat, Tabwidth: 1}).Fprint(&buf, token.NewFileSet(), node); err != nil {
+			fail("cannot print %s: %v", key, err)
+		}
+		// layout does not count: collapse all white space
+		txt := strings.Join(strings.Fields(buf.String()), " ")
+		sum := sha256.Sum256([]byte(txt))
+		v := binary.BigEndian.Uint64(sum[:8]) >> 4
+		key = regexp.MustCompile(`[^A-Za-z0-9_]`).ReplaceAllString(key, "_")
+		seen[key]++
+		if seen[key] > 1 {
+			key = fmt.Sprintf("%s_%d", key, seen[key])
+		}
+		pins = append(pins, pin{key, v})
+	}
+	for _, d := range dirs {
+		ents, err := os.ReadDir(filepath.Join(repo, d))
+		if err != nil {
+			fail("cannot read %s: %v", d, err)
+		}
+		var names []string
+		for _, e := range ents {
+			n := e.Name()
+			if strings.HasSuffix(n, ".go") && !strings.HasSuffix(n, "_test.go") && n != "verif_on.go" && n != "verif_off.go" {
+				names = append(names, n)
+			}
+		}
+		sort.Strings(names)
+		for _, n := range names {
+			f, err := parser.ParseFile(token.NewFileSet(), filepath.Join(repo, d, n), nil, 0)
+			if err != nil {
+				fail("cannot parse %s/%s: %v", d, n, err)
+			}
+			for _, decl := range f.Decls {
+				switch x := decl.(type) {
+				case *ast.FuncDecl:
+					key := d + "_" + x.Name.Name
+					if x.Recv != nil && len(x.Recv.List) == 1 {
+						t := x.Recv.List[0].Type
+						if st, ok := t.(*ast.StarExpr); ok {
+							t = st.X
+						}
+						if id, ok := t.(*ast.Ident); ok {
+							key = d + "_" + id.Name + "_" + x.Name.Name
+						}
+					}
+					add(key, x)
+				case *ast.GenDecl:
+					if x.Tok == token.IMPORT {
+						continue
+					}
+					for _, sp := range x.Specs {
+						switch y := sp.(type) {
+						case *ast.ValueSpec:
+							add(d+"_"+strings.ToLower(x.Tok.String())+"_"+y.Names[0].Name, y)
+						case *ast.TypeSpec:
+							add(d+"_type_"+y.Name.Name, y)
+						}
+					}
+				}
+			}
+		}
+	}
+	var sb strings.Builder
+	sb.WriteString("namespace Pin\n")
+	for _, p := range pins {
+		fmt.Fprintf(&sb, "def %s : Nat := 0x%015x\n", p.key, p.val)
+	}
+	sb.WriteString("end Pin\n")
+	return sb.String()
+}
+
 type fragment struct {
 	name string
 	gen  func() string
@@ -1604,6 +1693,11 @@ structure MethodFacts where
 				"url/url.go", "url/nodeurl.go", "url/urlsearchparams.go", "url/escape.go", "util/module.go", "console/module.go",
 				"process/module.go", "require/module.go", "require/resolve.go"})
 		}},
+	})
+
+	// ---- digests of the declarations the hand transcriptions were written from (transcription pins)
+	emitFile("SourcePins.lean", hdr, []fragment{
+		{"sourcePins", sourcePins},
 	})
 
 	if *statusPath != "" {
